@@ -166,6 +166,12 @@ func (u *Unmarshaler) fillSlice(fieldType reflect.Type, value reflect.Value, map
 	dereffedBaseType := Deref(baseType)
 	dereffedBaseKind := dereffedBaseType.Kind()
 	refValue := reflect.ValueOf(mapValue)
+	// 文档值不一定是切片（如 [][]int 收到 [1]、map[string][]int 收到 {"k":1}）：
+	// 对其它 Kind 调用 IsNil/Len/Index 会 panic，这里改为返回类型不匹配错误。
+	if refValue.Kind() != reflect.Slice {
+		return errTypeMismatch
+	}
+
 	if refValue.IsNil() {
 		return nil
 	}
